@@ -76,7 +76,7 @@ def run(ctx):
     from . import c16
     c16.rule_stream(ctx, R="R-C17-W")
     ctx.floor("R-C17-W", 40)
-    ctx.floor("R-C17-1", 8)
+    ctx.floor("R-C17-1", 12)
     ctx.floor("R-C17-2", 20)
     ctx.floor("R-C17-3", 30 + 5 + 1)
     ctx.floor("R-C17-4", 1)
@@ -127,6 +127,40 @@ def rule_framing(ctx, rci):
     p = explore(interp_factory(repo), lambda it: it.call_function(ft, [reader_obj(rci), md.AFile(b"MTrX\x00\x00\x00\x04")], {}))
     ok = bool(p) and all(x.kind == "raise" for x in p)
     ctx.check(ok, R, "chunk.rejects[bad tag]", ft.where(), "parse_track_header(<bad tag>)", "a bad track tag gives %s" % [(x.kind, x.value) for x in p])
+
+    # the same through the entry point: a file whose n-th track chunk does not start with the track tag is not music
+    fpf = repo.find_method(rci, "parse_midi_file")
+    ctx.touch(fpf, repo.find_method(rci, "parse_track"))
+    note = b"\x00\x90\x3c\x40\x48\x80\x3c\x40\x00\xff\x2f\x00"
+    chunk = b"MTrk" + len(note).to_bytes(4, "big") + note
+    head2 = b"MThd\x00\x00\x00\x06\x00\x01\x00\x02\x00\x48"
+
+    def with_file(data):
+        def mk(ch):
+            it = interp_factory(repo)(ch)
+            inner = it.call_builtin
+
+            def cb(name, args, kwargs, node=None):
+                if name == "open" and args and args[0] == "file.mid":
+                    return md.AFile(data)
+                return inner(name, args, kwargs, node)
+            it.call_builtin = cb
+            return it
+        return mk
+    try:
+        p = explore(with_file(head2 + chunk + chunk), lambda it: it.call_function(fpf, [reader_obj(rci), "file.mid"], {}))
+        ok = len(p) == 1 and p[0].kind == "return" and isinstance(p[0].value, tuple) and isinstance(p[0].value[1], list) and len(p[0].value[1]) == 2 \
+            and all(isinstance(t, list) and len(t) == 3 for t in p[0].value[1])
+        ctx.check(ok, R, "file[2 tracks]", fpf.where(), "parse_midi_file(<header for 2 tracks, two chunks of a note on, a note off and the end of track>)",
+                  "a well-formed file gives %s, expected the header and two tracks of three events" % [(x.kind, short(repr(x.value), 200)) for x in p])
+        for label, data in (("second track tag", head2 + chunk + b"MTrX" + chunk[4:]), ("first track tag", head2 + b"RIFF" + chunk[4:] + chunk),
+                            ("second chunk is a header", head2 + chunk + head2)):
+            p = explore(with_file(data), lambda it: it.call_function(fpf, [reader_obj(rci), "file.mid"], {}))
+            ok = bool(p) and all(x.kind == "raise" for x in p)
+            ctx.check(ok, R, "file.rejects[%s]" % label, fpf.where(), "parse_midi_file(<2 tracks announced, bad %s>)" % label,
+                      "a file with a bad track tag is returned as music instead of being rejected: %s" % [(x.kind, short(repr(x.value), 120)) for x in p])
+    except CannotDecide as e:
+        raise AnalysisError("parse_midi_file over known bytes: %s" % e)
 
 
 def rule_events(ctx, rci):
